@@ -642,6 +642,7 @@ protected:
 
     virtual Action visitBinaryExpression(const BinaryExpressionSyntax* node) override
     {
+        traverseExpression(node);
         nonterminal(node->left());
         terminal(node->operatorToken(), node);
         nonterminal(node->right());
@@ -650,6 +651,7 @@ protected:
 
     virtual Action visitConditionalExpression(const ConditionalExpressionSyntax* node) override
     {
+        traverseExpression(node);
         nonterminal(node->condition());
         terminal(node->questionToken(), node);
         nonterminal(node->whenTrue());
@@ -660,6 +662,7 @@ protected:
 
     virtual Action visitAssignmentExpression(const AssignmentExpressionSyntax* node) override
     {
+        traverseExpression(node);
         nonterminal(node->left());
         terminal(node->operatorToken(), node);
         nonterminal(node->right());
@@ -668,6 +671,7 @@ protected:
 
     virtual Action visitSequencingExpression(const SequencingExpressionSyntax* node) override
     {
+        traverseExpression(node);
         nonterminal(node->left());
         terminal(node->operatorToken(), node);
         nonterminal(node->right());
